@@ -831,7 +831,7 @@ func (p *exprParser) parseUnary() (Expr, error) {
 	if e, ok, err := p.parseQuantOrIte(); ok {
 		return e, err
 	}
-	if p.isOp("!") || p.isOp("-") {
+	if p.isOp("!") || p.isOp("-") || p.isOp("*") {
 		op := p.next().text
 		x, err := p.parseUnary()
 		if err != nil {
